@@ -210,11 +210,17 @@ pub fn c07_with(ctx: &mut Ctx, plan: C07Plan) -> R {
     set_observed(false);
     let use_call = ctx.chance(1, 3);
     let method = *ctx.pick(&["GET", "GET", "DELETE", "OPTIONS"]);
-    let status = *ctx.pick(&[200u16, 200, 201, 404, 500, 301]);
-    let head = format!("HTTP/1.1 {} X\r\n{}Transfer-Encoding: {}\r\n\r\n", status, if status == 301 { "Location: /n\r\n" } else { "" }, *ctx.pick(&["chunked", "Chunked", "gzip, chunked"]));
+    let status = *ctx.pick(&[200u16, 200, 201, 404, 500, 301, 307, 399]);
+    let head = format!("HTTP/1.1 {} X\r\n{}{}Transfer-Encoding: {}\r\n\r\n", status, if (300..400).contains(&status) && status != 399 { "Location: /n\r\n" } else { "" }, if ctx.chance(1, 8) { "Content-Length: 3\r\n" } else { "" }, *ctx.pick(&["chunked", "Chunked", "gzip, chunked"]));
     let mut rx = match reach_body_rx(use_call, method, head.as_bytes()) {
         Ok(v) => v,
-        Err(e) => fail!("FOREIGN", "", "cannot reach RecvBody: {}", e),
+        Err(e) => {
+            if e.contains("no RecvBody state") || e.contains("no body state") {
+                set_observed(true);
+                fail!("C07.no_body_state", "", "{} answered with [{}]: a chunked body follows but the flow does not enter the body state", method, show_bytes(head.as_bytes()));
+            }
+            fail!("FOREIGN", "", "cannot reach RecvBody: {}", e)
+        }
     };
     set_observed(true);
 
